@@ -552,6 +552,10 @@ def r4(R):
         R.check(kind == want, "C18.R4", GR, e.lineno, "read_grain_file", "#%s written with %%%s, restored as %s" % (tag, (convs or ["s"])[0], src(e)),
                 "the reader does not invert the writer's conversion: %s comes back as %s instead of %s" % (
                     tag, {"raw": "the raw rest of the line including the newline"}.get(kind, kind), want))
+    # line classification: the tag dictionary is filled from lines that carry free text (names, intensity_info), so the tests that
+    # decide 'this is a #key value line' must look at the START of the line; a search anywhere in the line misfiles a value that
+    # happens to contain the searched text
+    _unanchored_line_tests(R, rd)
     # translation parsed with float and split()
     u = ast.unparse(rd)
     R.check("[float(x) for x in line.split()[1:]]" in u, "C18.R4", GR, rd.lineno, "read_grain_file", "translation = floats of the tokens after the tag", "translation parse changed")
@@ -569,6 +573,74 @@ def r4(R):
     ok = any(b in ("%s={}" % dvars[0], "%s=dict()" % dvars[0]) for b in body) and any(b in ("%s=[]" % accname, "%s=list()" % accname) for b in body) \
         and "%s=None" % tvars[0] in body
     R.check(ok, "C18.R4", GR, rd.lineno, "read_grain_file", "tag dictionary, row accumulator and translation reset after each grain", "attributes of one grain leak into the next")
+
+
+def _unanchored_line_tests(R, rd):
+    cfg = pyfacts.PyCFG(rd)
+    loops = [l for l in ast.walk(rd) if isinstance(l, ast.For) and isinstance(l.target, ast.Name)]
+    R.shape(len(loops) >= 1, "C18.R4", GR, "read_grain_file", "the loop over the lines of the file")
+    lv = loops[0].target.id
+    stores = [a for a in ast.walk(rd) if isinstance(a, ast.Assign) and isinstance(a.targets[0], ast.Subscript) and isinstance(a.targets[0].value, ast.Name)
+              and not isinstance(a.targets[0].slice, (ast.Slice, ast.Constant))]
+    R.shape(len(stores) >= 1, "C18.R4", GR, "read_grain_file", "the store  <tags>[key] = value  of a '#key value' line")
+
+    def conjuncts(t, pol):
+        if isinstance(t, ast.BoolOp) and isinstance(t.op, ast.And) and pol:
+            for v in t.values:
+                for c in conjuncts(v, True):
+                    yield c
+        elif isinstance(t, ast.BoolOp) and isinstance(t.op, ast.Or) and not pol:
+            for v in t.values:
+                for c in conjuncts(v, False):
+                    yield c
+        elif isinstance(t, ast.UnaryOp) and isinstance(t.op, ast.Not):
+            for c in conjuncts(t.operand, not pol):
+                yield c
+        else:
+            yield t, pol
+
+    def unanchored(t, pol):
+        """(searched text, 'must be absent'|'must be present') when t (taken with polarity pol) searches the whole line"""
+        if not isinstance(t, ast.Compare) or len(t.ops) != 1:
+            return None
+        l_, op, r_ = t.left, t.ops[0], t.comparators[0]
+        if isinstance(op, (ast.In, ast.NotIn)) and isinstance(l_, ast.Constant) and isinstance(l_.value, str) and src(r_) == lv:
+            absent = isinstance(op, ast.NotIn) == pol
+            return l_.value, absent
+        if isinstance(l_, ast.Call) and isinstance(l_.func, ast.Attribute) and l_.func.attr in ("find", "rfind", "index") and src(l_.func.value) == lv \
+                and l_.args and isinstance(l_.args[0], ast.Constant) and isinstance(l_.args[0].value, str):
+            c = pyfacts.const_int(r_)
+            if c is None:
+                return None
+            # value of find(): -1 = absent, 0 = at the start, > 0 somewhere else
+            sat = lambda val: {ast.Lt: val < c, ast.LtE: val <= c, ast.Gt: val > c, ast.GtE: val >= c, ast.Eq: val == c, ast.NotEq: val != c}[type(op)]
+            if type(op) not in (ast.Lt, ast.LtE, ast.Gt, ast.GtE, ast.Eq, ast.NotEq):
+                return None
+            want = [sat(v) == pol for v in (-1, 0, 5)]     # accepted for: absent / at start / inside
+            if want == [True, False, False]:
+                return l_.args[0].value, True              # passes only when the text is nowhere in the line
+            if want == [False, True, True]:
+                return l_.args[0].value, False             # passes whenever the text is anywhere in the line
+            return None                                    # anchored (== 0) or position independent
+        return None
+
+    n = 0
+    for st in stores:
+        node = cfg.node_of(st)
+        if node is None:
+            continue
+        for t, pol in cfg.guards(node):
+            for c, cp in conjuncts(t, pol):
+                u = unanchored(c, cp)
+                n += 1
+                if u is not None and u[1]:
+                    R.check(False, "C18.R4", GR, c.lineno, "read_grain_file", "key/value line test %s" % src(c),
+                            "a '#key value' line is recognised by %r appearing NOWHERE in the line, but the line carries free text: "
+                            "write_grain_file writes '#name x%sy' for a grain of that name and the reader drops it (the grain comes back without its name)"
+                            % (u[0], u[0]))
+                else:
+                    R.inst("C18.R4", "read_grain_file: key/value line guard %s%s" % ("" if cp else "not ", src(c)))
+    R.shape(n >= 1, "C18.R4", GR, "read_grain_file", "the tests that guard the tag dictionary store")
 
 
 def reader_store_exprs(fn):
@@ -644,6 +716,24 @@ def r5(R):
         R.shape(len(st) == 1, "C18.R5", GR, "grain.to_h5py_group", "one store <group>[<attr>] = <value> in the loop over the scalar attribute tables")
         R.check(src(st[0].targets[0].slice) == var and value_is_getattr(w, st[0].value, var), "C18.R5", GR, st[0].lineno, "grain.to_h5py_group",
                 "scalars: %s[%s] = getattr(self, %s) for %s" % (gname, src(st[0].targets[0].slice), var, src(l.iter)), "a scalar attribute is written under another name or with another value")
+    # an optional attribute is skipped only when it is None: 0 peaks / 0 unique peaks / an empty name are data.  A truthiness test
+    # ('if value:') drops them, and the reader then returns a grain without the attribute
+    wcfg = pyfacts.PyCFG(w)
+    for l in sl:
+        for stx in [x for x in ast.walk(l) if isinstance(x, ast.Assign) and isinstance(x.targets[0], ast.Subscript) and src(x.targets[0].value) == gname]:
+            for t, pol in wcfg.guards(wcfg.node_of(stx)):
+                tv = pyfacts.resolved(w, t, 2, keep=("self", l.target.id))
+                names = [x.id for x in ast.walk(t) if isinstance(x, ast.Name)]
+                if not any(nm in names for nm in [src(stx.value)] if isinstance(stx.value, ast.Name)):
+                    continue
+                ok_none = isinstance(t, ast.Compare) and len(t.ops) == 1 and isinstance(t.ops[0], (ast.IsNot, ast.NotEq)) and \
+                    isinstance(t.comparators[0], ast.Constant) and t.comparators[0].value is None and pol
+                truthy = pol and isinstance(t, ast.Name) and t.id == src(stx.value)
+                R.check(not truthy, "C18.R5", GR, stx.lineno, "grain.to_h5py_group", "scalar attribute written unless it is None (guard: %s)" % src(t),
+                        "the guard is a truthiness test: npks == 0, nuniq == 0 and name == '' are skipped like None, no dataset is created and "
+                        "read_grain_file_h5 returns the grain WITHOUT that attribute")
+                if not truthy and not ok_none:
+                    R.shape(False, "C18.R5", GR, "grain.to_h5py_group", "the condition '%s' under which a scalar attribute is written" % src(t)[:60])
     al = loop_over(w, ("ARRATTRS",))
     R.shape(len(al) == 1, "C18.R5", GR, "grain.to_h5py_group", "the loop over ARRATTRS")
     var = al[0].target.id
